@@ -41,7 +41,14 @@ def run_one(cfg: e3.E3Config, chooser: Chooser):
     hs = [h, Collect(), Collect()]
     saved_level, saved_handlers, saved_prop = logger.level, list(logger.handlers), logger.propagate
     logger.handlers = list(hs)
-    logger.setLevel(logging.INFO)
+    root = logging.getLogger()
+    saved_root_level = root.level
+    if cfg.base.loglevel == 'NOTSET':
+        # the caller configures levels on the root logger only: the labtech logger inherits INFO
+        root.setLevel(logging.INFO)
+        logger.setLevel(logging.NOTSET)
+    else:
+        logger.setLevel(logging.INFO)
     logger.propagate = False
     at_return: list = []
 
@@ -60,6 +67,7 @@ def run_one(cfg: e3.E3Config, chooser: Chooser):
         logger.handlers = saved_handlers
         logger.setLevel(saved_level)
         logger.propagate = saved_prop
+        root.setLevel(saved_root_level)
     # records handled before run_tasks returned = everything collected before the world was finished;
     # run_once_e3 lets the children finish afterwards but nothing consumes the queue any more
     return obs, [list(x.msgs) for x in hs]
@@ -87,7 +95,7 @@ def oracle_one(cfg: e3.E3Config, obs, msgs):
     # the "Logging error" dump of a record that could not be sent, is not a delivery
     seen_tokens: collections.Counter = collections.Counter()
     PREFIX = {'log': 'log', 'dlog': 'dbg', 'warn': 'warn', 'exc': 'exc', 'burst': 'b', 'print': 'out', 'iprint': 'out', 'nprint': 'out',
-              'wprint': 'out', 'eprint': 'out', 'rprint': 'out', 'err': 'err'}
+              'wprint': 'out', 'eprint': 'out', 'rprint': 'out', 'err': 'err', 'tprint': 'out'}
     first_lines = collections.Counter(m.split('\n', 1)[0] for m in msgs)
     all_lines = collections.Counter(ln.strip() for m in msgs for ln in m.split('\n'))
     for i, pat in cfg.base.emit:
@@ -148,7 +156,11 @@ def real_dump(cfg_json: str, backend: str, mw: str, storage_dir: str):
     fh = logging.FileHandler(logfile)
     fh.setFormatter(logging.Formatter('%(message)s'))
     logger.handlers = [h, fh, Collect()]
-    logger.setLevel(logging.INFO)
+    if cfg.loglevel == 'NOTSET':
+        logging.getLogger().setLevel(logging.INFO)
+        logger.setLevel(logging.NOTSET)
+    else:
+        logger.setLevel(logging.INFO)
     logger.propagate = False
     built = Built(spec)
     lab = labtech.Lab(storage=storage_dir, runner_backend=backend, max_workers=int(mw), notebook=False)
@@ -187,7 +199,7 @@ def _real(a):
 
 def real_cases(tier: str):
     out = []
-    pats = [('log', 'print'), ('print+flush+print+flush', 'log+print+err+eflush'), ('print', 'print'), ('nprint+iprint', 'exc'), ('wprint', 'eprint'), ('log+print+flush+die', 'log'), ('print+rprint', 'err'), ('dlog', 'log+dlog')]
+    pats = [('log', 'print'), ('print+flush+print+flush', 'log+print+err+eflush'), ('print', 'print'), ('nprint+iprint', 'exc'), ('wprint', 'eprint'), ('log+print+flush+die', 'log'), ('print+rprint', 'err'), ('dlog', 'log+dlog'), ('tprint', 'print+tprint'), ('wrap+print', 'print+wrap+print')]
     for pa, pb in pats:
         for shape in [((), ()), ((), (0,))]:
             base = e2.Config(spec=mk_spec(shape), requested=((0, False), (1, False)), emit=((0, pa), (1, pb)))
@@ -196,6 +208,8 @@ def real_cases(tier: str):
                     out.append((base, be, mw))
     base = e2.Config(spec=mk_spec(((), ())), requested=((0, False), (1, False)), emit=((0, 'print+err'), (1, 'log')), faults=(0,))
     out += [(base, 'fork', 2), (base, 'spawn', 1)]
+    base = e2.Config(spec=mk_spec(((), (0,))), requested=((0, False), (1, False)), emit=((0, 'log+print'), (1, 'warn+log')), loglevel='NOTSET')
+    out += [(base, 'fork', 2), (base, 'spawn', 2)]
     return out
 
 
@@ -214,6 +228,7 @@ def configs(tier: str):
              ('print+rprint+flush', 'log', ()), ('print+rprint+rprint+print', 'print', ()), ('err+rprint', 'rprint', ()),
              ('print', 'log', (0,)), ('print+err', 'print+flush', (0,)), ('log+print', 'print', (1,)), ('print', 'print', (0, 1)),
              ('iprint+flush+nprint', 'log', ()), ('nprint', 'iprint', ()), ('burst1200', 'log', ()),
+             ('tprint', 'log', ()), ('print+tprint+flush+tprint', 'tprint', ()), ('wrap+print', 'log', ()), ('print+wrap+print', 'wrap+print+flush+print', ()),
              ('exc', 'print', ()), ('log+exc', 'exc', (1,)), ('wprint', 'print+flush+eprint', ()), ('print+flush+wprint', 'eprint', ())]
     for pa, pb, faults in extra:
         for shape in shapes2[:1] if pa.startswith('burst') else shapes2:
@@ -221,6 +236,12 @@ def configs(tier: str):
             for be in ('fork', 'spawn'):
                 for mw in ((2,) if pa.startswith('burst') else (1, 2)):
                     out.append(e3.E3Config(base=base, backend=be, max_workers=mw, log_mode='choice', liveness_choice=False))
+    # a caller whose labtech logger has no level of its own (NOTSET; the root logger is at INFO)
+    for pa, pb in (('log', 'print'), ('log+print+err+eflush', 'warn')):
+        for shape in shapes2:
+            base = e2.Config(spec=mk_spec(shape), requested=tuple((i, False) for i in range(2)), emit=((0, pa), (1, pb)), loglevel='NOTSET')
+            for be in ('fork', 'spawn'):
+                out.append(e3.E3Config(base=base, backend=be, max_workers=2, log_mode='choice', liveness_choice=False))
     if tier != 'quick':
         for shape in [((), (), ()), ((), (), (0, 1)), ((), (0,), (1,))]:
             for pats3 in itertools.product(('log', 'print', 'print+flush'), repeat=3):
